@@ -471,6 +471,58 @@ template <class T> static void rhsRefactorScaleCase(vh::Rng& g, int n) {
     }
 }
 
+
+// ---------------------------------------------------------------- Matrix right-hand sides (round 2b)
+// solve(const Matrix& B, Matrix& X) of every factorisation that has one: LU and LLT (square), QTZ and SVD (tall, square AND wide)
+// x {1, 2, 3-5} right-hand-side columns.  Every column of X is judged on its own: the same record + contract as the
+// single-vector solve (`lu`: residual; `ls`: normal equations and, for small-integer matrices, the exact minimum-norm /
+// exact-rank contract in the driver) and it must equal the single-vector solve of that column by the SAME factor object.
+static int g_mrhs[4][3][3];      // [factorisation][shape tall/square/wide][ncols class]
+template <class T> static void matrixRhsCase(vh::Rng& g, int fac, int shape, int ncls) {
+    static const char* facName[] = {"lu", "llt", "qtz", "svd"}; static const char* shName[] = {"tall", "square", "wide"}; static const char* ncName[] = {"cols1", "cols2", "cols3to5"};
+    if (fac <= 1) shape = 1;
+    int k = 2 + g.below(3), extra = 1 + g.below(3);
+    int m = shape == 0 ? k + extra : k, n = shape == 2 ? k + extra : k;
+    int nrhs = ncls == 0 ? 1 : ncls == 1 ? 2 : 3 + g.below(3);
+    bool ints = fac >= 2 && g.coin();            // small integers: the driver's exact contract (min norm, exact rank) applies
+    DMat A = fac == 1 ? genSPD(g, n) : ints ? genInts(g, m, n, -4, 4) : genGeneric(g, m, n);
+    if (fac != 1) for (int i = 0; i < std::min(m, n); ++i) A(i, i) += (A(i, i) < 0 ? -7 : 7);     // keep the condition number modest
+    roundTo<T>(A); if (fac == 1) for (int i = 0; i < n; ++i) for (int j = 0; j < i; ++j) A(i, j) = A(j, i);
+    DMat B = ints ? genInts(g, m, nrhs, -5, 5) : genGeneric(g, m, nrhs); roundTo<T>(B);
+    Matrix_<T> X; std::vector<Vector_<T> > xs(nrhs);
+    auto col = [&](int c) { std::vector<double> bc(m); for (int i = 0; i < m; ++i) bc[i] = B(i, c); return bc; };
+    std::string tag = std::string("matrixrhs.") + facName[fac] + "." + shName[shape] + "." + ncName[ncls];
+    std::string key = tag + "." + Prec<T>::name();
+    try {
+        if (fac == 0) { FactorLU f(toSimTK<T>(A)); f.solve(toSimTK<T>(B), X); for (int c = 0; c < nrhs; ++c) f.solve(toVec<T>(col(c)), xs[c]); }
+        else if (fac == 1) { FactorLLT f(toSimTK<T>(A)); f.solve(toSimTK<T>(B), X); for (int c = 0; c < nrhs; ++c) f.solve(toVec<T>(col(c)), xs[c]); }
+        else if (fac == 2) { FactorQTZ f(toSimTK<T>(A)); f.solve(toSimTK<T>(B), X); for (int c = 0; c < nrhs; ++c) f.solve(toVec<T>(col(c)), xs[c]); }
+        else { FactorSVD f(toSimTK<T>(A)); f.solve(toSimTK<T>(B), X); for (int c = 0; c < nrhs; ++c) f.solve(toVec<T>(col(c)), xs[c]); }
+    } catch (const std::exception&) {
+        vh::I("qtzdiag").d(0).d(2).d(2).d(0.5).emit(); std::puts("O qtzdiag 2"); vh::D(tag + ".exception"); vh::P("no_exception", key + ".exception", 1, 0); return;
+    }
+    double shapeBad = (X.nrow() == n && X.ncol() == nrhs) ? 0 : 1;
+    for (int c = 0; c < nrhs; ++c) {
+        std::vector<double> bc = col(c), xc(n, NAN), xv = fromVec(xs[c]);
+        if (shapeBad == 0) for (int i = 0; i < n; ++i) xc[i] = (double)X(i, c);
+        if (fac <= 1) {
+            vh::Line in = vh::I("lu"); in.d(Prec<T>::id()).d(n).d(fac == 0 ? 64.0 : 16.0); putMat(in, A); putVec(in, bc); putVec(in, xc); in.emit();
+            std::puts("O lu 1"); ++g_count[fac];
+            vh::P("solve_residual", key + ".residual", luResidual(A, bc, xc), (fac == 0 ? 64.0 : 16.0) * n * Prec<T>::eps());
+        } else {
+            vh::Line in = vh::I("ls"); in.d(Prec<T>::id()).d(m).d(n).d(32.0).d(ints ? 1 : 0).d(999); putMat(in, A); putVec(in, bc); putVec(in, xc); in.emit();
+            std::puts("O ls 1 1"); ++g_count[2];
+            vh::P("normal_equations", key + ".normal_eq", lsResidual(A, bc, xc), 32.0 * std::max(m, n) * Prec<T>::eps());
+        }
+        vh::D(tag + (c == 0 ? ".col0" : ".colN"));
+        vh::P("matrix_rhs_result_shape", key + ".shape", shapeBad, 0);
+        double d = 0, sc = 1e-300; for (int i = 0; i < n && i < (int)xv.size(); ++i) { d = std::max(d, std::fabs(xc[i] - xv[i])); sc = std::max(sc, std::fabs(xv[i])); }
+        if ((int)xv.size() != n || !(d == d)) d = INFINITY;
+        vh::P("matrix_rhs_column_equals_vector_solve", key + (c == 0 ? ".col0" : ".colN") + ".vs_vector_solve", d / sc, 64.0 * std::max(m, n) * Prec<T>::eps());   // measured <= 0.5*max(m,n)*eps
+    }
+    ++g_mrhs[fac][shape][ncls];
+}
+
 // eigenvalue special structure: repeated (symmetric I + u u^T has n-1 equal eigenvalues) and defective (Jordan-like) matrices
 template <class T> static void eigSpecialCase(vh::Rng& g, int n, int cls);
 
@@ -521,6 +573,11 @@ int main(int argc, char** argv) {
     for (int w = 0; w < 5; ++w) apiCase(g, w);
     for (int w = 0; w < 12; ++w) { if (w % 2) round2Case<float>(g, maxN, w / 2); else round2Case<double>(g, maxN, w / 2); }   // guaranteed shares
     for (int c = 0; c < 3; ++c) { eigSpecialCase<double>(g, 4 + g.below(5), c); eigSpecialCase<float>(g, 4 + g.below(5), c); }
+    // Matrix right-hand sides: every factorisation x applicable shape x {1, 2, 3-5} columns in every run, QTZ/SVD in both precisions
+    for (int fac = 0; fac < 4; ++fac) for (int shape = (fac <= 1 ? 1 : 0); shape <= (fac <= 1 ? 1 : 2); ++shape) for (int nc = 0; nc < 3; ++nc) {
+        matrixRhsCase<double>(g, fac, shape, nc);
+        if (fac >= 2 || nc == 1) matrixRhsCase<float>(g, fac, shape, nc);
+    }
     // exactly singular matrix: isSingular() must say so; a generic one must not
     { Matrix S2(2, 2); S2(0, 0) = 1; S2(0, 1) = 2; S2(1, 0) = 2; S2(1, 1) = 4; FactorLU f(S2); Matrix G2(2, 2); G2(0, 0) = 4; G2(0, 1) = 1; G2(1, 0) = 1; G2(1, 1) = 3; FactorLU f2(G2);
       vh::I("qtzdiag").d(0).d(2).d(2).d(0.5).emit(); std::puts("O qtzdiag 2"); vh::D("lu.isSingular");
@@ -528,6 +585,7 @@ int main(int argc, char** argv) {
     for (long k = 0; k < args.n; ++k) {
         int r = g.below(40);
         if (r == 0) { apiCase(g, 4); continue; }
+        if (r == 7) { int fac = g.below(4); if (g.below(3) == 0) matrixRhsCase<float>(g, fac, g.below(3), g.below(3)); else matrixRhsCase<double>(g, fac, g.below(3), g.below(3)); continue; }
         if (r <= 6) { if (g.below(3) == 0) round2Case<float>(g, maxN, g.below(6)); else round2Case<double>(g, maxN, g.below(6)); continue; }
         if (g.below(3) == 0) oneCase<float>(g, maxN); else oneCase<double>(g, maxN);
     }
@@ -538,6 +596,10 @@ int main(int argc, char** argv) {
         const int need[8] = {20, 4, 10, 6, 6, 6, 2, 2};
         vh::I("qtzdiag").d(0).d(2).d(2).d(0.5).emit(); std::puts("O qtzdiag 2"); vh::D("floor");
         for (int i = 0; i < 8; ++i) vh::P("coverage_floor", std::string("c24.floor.") + fam[i], std::max(0, need[i] - g_count[i]), 0);
+        int missing = 0;      // matrix-RHS classes (factorisation x shape x columns) that were not judged at least twice
+        for (int fac = 0; fac < 4; ++fac) for (int shape = 0; shape < 3; ++shape) for (int nc = 0; nc < 3; ++nc)
+            if ((fac >= 2 || shape == 1) && g_mrhs[fac][shape][nc] < (fac >= 2 ? 2 : 1)) ++missing;
+        vh::P("coverage_floor", "c24.floor.matrixrhs_classes", missing, 0);
     }
     return 0;
 }
